@@ -101,6 +101,10 @@ namespace
   typedef TupleDiagMatrix<Csr, SparseMatrixBCSR<double, Index, 2, 2>> TupDiag;
   typedef TupleMatrix<TupleMatrixRow<Csr, Csr>, TupleMatrixRow<Csr, Csr>> TupMat;
 
+  // nested meta containers: the Stokes layout (meta matrices as blocks of a saddle-point matrix) and a tuple of a power vector
+  typedef SaddlePointMatrix<PowDiag, PowerColMatrix<Csr, 2>, PowerRowMatrix<Csr, 2>> StokesMat;
+  typedef TupleVector<PowerVector<DenseVector<double, Index>, 2>, DenseVector<double, Index>> StokesVec;
+
   inline void snap_add(Snapshot& s, const Snapshot& t)
   {
     s.elems.insert(s.elems.end(), t.elems.begin(), t.elems.end());
@@ -115,8 +119,24 @@ namespace
   Snapshot snap(const TupDiag& m) { Snapshot s = snap(m.template at<0, 0>()); snap_add(s, snap(m.template at<1, 1>())); return s; }
   Snapshot snap(const TupMat& m) { Snapshot s = snap(m.template at<0, 0>()); snap_add(s, snap(m.template at<0, 1>())); snap_add(s, snap(m.template at<1, 0>())); snap_add(s, snap(m.template at<1, 1>())); return s; }
 
+  Snapshot snap(const StokesMat& m)
+  {
+    Snapshot s = snap(m.block_a());
+    snap_add(s, snap(m.block_b().template at<0, 0>())); snap_add(s, snap(m.block_b().template at<1, 0>()));
+    snap_add(s, snap(m.block_d().template at<0, 0>())); snap_add(s, snap(m.block_d().template at<0, 1>()));
+    return s;
+  }
+  Snapshot snap(const StokesVec& v)
+  {
+    Snapshot s = snap(v.template at<0>().template at<0>());
+    snap_add(s, snap(v.template at<0>().template at<1>())); snap_add(s, snap(v.template at<1>()));
+    return s;
+  }
+
   struct Objects
   {
+    std::vector<std::unique_ptr<StokesMat>> stokes_m;
+    std::vector<std::unique_ptr<StokesVec>> stokes_v;
     std::vector<std::unique_ptr<SadMat>> sad;
     std::vector<std::unique_ptr<PowDiag>> pdiag;
     std::vector<std::unique_ptr<PowCol>> pcol;
@@ -197,6 +217,18 @@ namespace
               m.template at<0, 0>() = make_csr(g, r1, r1, rank, o, 0); m.template at<0, 1>() = make_csr(g, r1, r2, rank, o, 1000);
               m.template at<1, 0>() = make_csr(g, r2, r1, rank, o, 2000); m.template at<1, 1>() = make_csr(g, r2, r2, rank, o, 3000);
               rec.ref = snap(m); if(reg) cp.add_object(String(rec.id), m); } break;
+    case 16: { const Index nv = 1 + g.idx(6), np = 1 + g.idx(4);
+              O.stokes_m.emplace_back(new StokesMat()); auto& m = *O.stokes_m.back();
+              m.block_a().template at<0, 0>() = make_csr(g, nv, nv, rank, o, 0); m.block_a().template at<1, 1>() = make_csr(g, nv, nv, rank, o, 500);
+              m.block_b().template at<0, 0>() = make_csr(g, nv, np, rank, o, 1000); m.block_b().template at<1, 0>() = make_csr(g, nv, np, rank, o, 1500);
+              m.block_d().template at<0, 0>() = make_csr(g, np, nv, rank, o, 2000); m.block_d().template at<0, 1>() = make_csr(g, np, nv, rank, o, 2500);
+              rec.ref = snap(m); if(reg) cp.add_object(String(rec.id), m); } break;
+    case 17: { const Index nv = 1 + g.idx(12), np = 1 + g.idx(7);
+              O.stokes_v.emplace_back(new StokesVec()); auto& v = *O.stokes_v.back();
+              v.template at<0>().template at<0>() = DenseVector<double, Index>(nv); v.template at<0>().template at<1>() = DenseVector<double, Index>(nv); v.template at<1>() = DenseVector<double, Index>(np);
+              for(Index i = 0; i < nv; ++i) { v.template at<0>().template at<0>()(i, val(rank, o, i)); v.template at<0>().template at<1>()(i, val(rank, o, i + 1000)); }
+              for(Index i = 0; i < np; ++i) v.template at<1>()(i, val(rank, o, i + 2000));
+              rec.ref = snap(v); if(reg) cp.add_object(String(rec.id), v); } break;
     case 14: { const Index sz = n + 1; O.sv.emplace_back(new SparseVector<double, Index>(sz)); auto& v = *O.sv.back();
               for(Index i = 0; i < sz; ++i) if(g.idx(3) == 0) v(i, val(rank, o, i));
               v.sort(); rec.ref = snap(v); if(reg) cp.add_object(String(rec.id), v); } break;
@@ -239,6 +271,8 @@ namespace
     case 11: { PowFull t; restore_and_check(cp, rec, t, rank, how); } break;
     case 12: { TupDiag t; restore_and_check(cp, rec, t, rank, how); } break;
     case 13: { TupMat t; restore_and_check(cp, rec, t, rank, how); } break;
+    case 16: { StokesMat t; restore_and_check(cp, rec, t, rank, how); } break;
+    case 17: { StokesVec t; restore_and_check(cp, rec, t, rank, how); } break;
     case 14: { SparseVector<double, Index> t(pre); restore_and_check(cp, rec, t, rank, how); } break;
     case 15: { SparseMatrixBanded<double, Index> t; restore_and_check(cp, rec, t, rank, how); } break;
     }
@@ -268,7 +302,7 @@ namespace
     const int k = int(g.idx(Index(max_objs) + 1));
     for(int o = 0; o < k; ++o)
     {
-      ObjRec rec; rec.kind = int(g.idx(16));
+      ObjRec rec; rec.kind = int(g.idx(18));
       do { rec.id = make_id(g, o, plan.objs); } while(std::any_of(plan.objs.begin(), plan.objs.end(), [&](const ObjRec& r) { return r.id == rec.id; }));
       make_object(O, cp, rank, o, rec, g, true);
       plan.objs.push_back(rec);
@@ -301,7 +335,7 @@ namespace
       const int extra = int(g.idx(3));
       for(int e = 0; e < extra; ++e, ++o2)
       {
-        ObjRec rec; rec.kind = int(g.idx(16));
+        ObjRec rec; rec.kind = int(g.idx(18));
         do { rec.id = make_id(g, o2 % 20, plan.objs2); } while(std::any_of(plan.objs.begin(), plan.objs.end(), [&](const ObjRec& r) { return r.id == rec.id; }) || std::any_of(plan.objs2.begin(), plan.objs2.end(), [&](const ObjRec& r) { return r.id == rec.id; }));
         make_object(O, cp, rank, o2, rec, g, true);
         plan.objs2.push_back(rec);
